@@ -1733,6 +1733,12 @@ DRAW_WITNESSES = [
                {"name": "q", "in": "query", "required": True, "schema": {"type": "string"}}],
               {"type": "object", "properties": {"s": {"type": "string"}}, "required": ["s"], "additionalProperties": False}),
      "gc": {"allow_x00": False, "codec": "ascii"}, "draws": 80},
+    # constrained string header / cookie values (minLength, maxLength) under
+    # codec=ascii: these do not go through the `_header_value` format (F40's site) but through from_schema(codec=...) like
+    # every other string, and must honour the configured codec
+    {**_doc30([{"name": "X-Tag", "in": "header", "required": True, "schema": {"type": "string", "minLength": 3, "maxLength": 12}},
+               {"name": "sid", "in": "cookie", "required": True, "schema": {"type": "string", "minLength": 4}}]),
+     "gc": {"allow_x00": False, "codec": "ascii"}, "draws": 80},
     # an operation with three payload alternatives (own schema each), served negative generation first
     {**W_BODY_ALTERNATIVES, "draws": 16, "negative_first": True, "gc": {}},
     # FC01a: the Authorization header of an http bearer security scheme under allow_x00=False
